@@ -112,28 +112,54 @@ fn files_of(root: &Path, kind: &str) -> Vec<PathBuf> {
     v
 }
 
-fn read_all(rt: &tokio::runtime::Runtime, dir: &Path, vlog: bool, keys: &[Vec<u8>]) -> Result<Vec<String>, String> {
+/// every key read twice by `get` (the second pass meets whatever the first one left in the caches),
+/// then a full scan.  `None` = that read failed; a failed read is retried by the second pass, and the
+/// scan runs whatever the gets did: the property constrains every read that *succeeds*.
+fn read_all(rt: &tokio::runtime::Runtime, dir: &Path, vlog: bool, keys: &[Vec<u8>]) -> Result<Vec<Option<String>>, String> {
     let t: Tree = TreeBuilder::with_options(mk_opts(dir, vlog)).build().map_err(|e| format!("open:{}", err_name(&e)))?;
-    let r = (|| -> Result<Vec<String>, String> {
+    let r = (|| -> Result<Vec<Option<String>>, String> {
         let mut out = vec![];
         let tx = t.begin().map_err(|e| format!("read:{}", err_name(&e)))?;
-        for k in keys {
-            out.push(match tx.get(k).map_err(|e| format!("read:{}", err_name(&e)))? {
-                None => "none".to_string(),
-                Some(v) => hex(&v),
-            });
+        for _pass in 0..2 {
+            for k in keys {
+                out.push(match tx.get(k) {
+                    Err(_) => None,
+                    Ok(None) => Some("none".to_string()),
+                    Ok(Some(v)) => Some(hex(&v)),
+                });
+            }
         }
-        let mut it = tx.range(&b"\x00"[..], &b"\xff\xff"[..]).map_err(|e| format!("read:{}", err_name(&e)))?;
-        let mut ok = it.seek_first().map_err(|e| format!("read:{}", err_name(&e)))?;
-        let mut n = 0;
-        while ok && it.valid() {
-            let k = it.key().user_key().to_vec();
-            let v = it.value().map_err(|e| format!("read:{}", err_name(&e)))?;
-            out.push(format!("{}={}", hex(&k), hex(&v)));
-            ok = it.next().map_err(|e| format!("read:{}", err_name(&e)))?;
-            n += 1;
-            if n > 1000 {
-                return Err("read:runaway".into());
+        let scan = (|| -> Result<Vec<String>, (Vec<String>, String)> {
+            let mut items = vec![];
+            macro_rules! tr {
+                ($e:expr) => {
+                    match $e {
+                        Ok(x) => x,
+                        Err(e) => return Err((items, format!("read:{}", err_name(&e)))),
+                    }
+                };
+            }
+            let mut it = tr!(tx.range(&b"\x00"[..], &b"\xff\xff"[..]));
+            let mut ok = tr!(it.seek_first());
+            while ok && it.valid() {
+                let k = it.key().user_key().to_vec();
+                let v = tr!(it.value());
+                items.push(format!("{}={}", hex(&k), hex(&v)));
+                ok = tr!(it.next());
+                if items.len() > 1000 {
+                    return Err((items, "read:runaway".into()));
+                }
+            }
+            Ok(items)
+        })();
+        match scan {
+            Ok(items) => {
+                out.push(Some(format!("scan-complete:{}", items.len())));
+                out.extend(items.into_iter().map(Some));
+            }
+            Err((items, _)) => {
+                out.push(None);
+                out.extend(items.into_iter().map(Some));
             }
         }
         Ok(out)
@@ -150,7 +176,7 @@ pub fn exec(a: &Args) -> i32 {
     std::panic::set_hook(Box::new(|_| {}));
     let mut vlog = false;
     let mut live: Option<(tempfile::TempDir, Tree)> = None;
-    let mut image: Option<(tempfile::TempDir, Vec<String>)> = None;
+    let mut image: Option<(tempfile::TempDir, Vec<Option<String>>)> = None;
     let keys: Vec<Vec<u8>> = (0..7).map(|i| format!("k{i}").into_bytes()).collect();
     for line in text.lines() {
         let w: Vec<&str> = line.split_whitespace().collect();
@@ -245,18 +271,24 @@ pub fn exec(a: &Args) -> i32 {
                         Err(e) if e.starts_with("open:") => format!("err-open{tag}"),
                         Err(_) => format!("err-read{tag}"),
                         Ok(a2) => {
-                            if &a2 == ans {
-                                format!("same{tag}")
-                            } else {
-                                let i = a2.iter().zip(ans.iter()).position(|(x, y)| x != y).unwrap_or(a2.len().min(ans.len()));
-                                format!(
-                                    "DIFFERENT:{}:{}@{}:{}->{}{tag}",
+                            // a read that succeeded must give the baseline answer; a scan cut short by an error
+                            // must have produced a prefix of the baseline scan
+                            let bad = a2.iter().zip(ans.iter()).position(|(x, y)| x.is_some() && x != y).or_else(|| {
+                                if a2.len() > ans.len() { Some(ans.len()) } else { None }
+                            });
+                            let complete = a2.iter().all(|x| x.is_some());
+                            match bad {
+                                None if complete && a2.len() == ans.len() => format!("same{tag}"),
+                                None => format!("err-read{tag}"),
+                                Some(i) => format!(
+                                    "DIFFERENT:{}:{}@{}:item{}:{}->{}{tag}",
                                     kind,
                                     rel.display(),
                                     off,
-                                    ans.get(i).map(|s| s.chars().take(24).collect::<String>()).unwrap_or("-".into()),
-                                    a2.get(i).map(|s| s.chars().take(24).collect::<String>()).unwrap_or("-".into())
-                                )
+                                    i,
+                                    ans.get(i).and_then(|s| s.as_ref()).map(|s| s.chars().take(24).collect::<String>()).unwrap_or("-".into()),
+                                    a2.get(i).and_then(|s| s.as_ref()).map(|s| s.chars().take(24).collect::<String>()).unwrap_or("-".into())
+                                ),
                             }
                         }
                     }
